@@ -1271,8 +1271,11 @@ def _histories(chk: Check, thorough: bool):
 
 
 def run(chk: Check):
-    chk.cov["rule"] = ("messages: carrier state machine (every template type x boundary values x {dict, XML}) exhaustively, every edge "
-                       "replayed through the real LLSDMessageSerializer; every template x generated values x {dict, XML} validated by TLC; "
+    chk.cov["rule"] = ("messages: carrier + serializer-instance state machine (every template type x boundary values x {dict, XML} x "
+                       "message profile full/empty/cut x instance histories of up to 2 (quick) / 3 earlier messages) exhaustively, every "
+                       "edge replayed with its history on ONE real LLSDMessageSerializer instance; per template one long-lived instance fed "
+                       "messages of changing block multiplicities (all ordered pairs of profiles), each judged by TLC (Carrier, round trip, "
+                       "equality with a fresh instance); every template x generated values x {dict, XML} validated by TLC; "
                        "non-trivial = messages with a U32/U64/IP/vector/quaternion variable. "
                        "codec: every LLSD value up to depth 2 over the model's leaf sets (laws by TLC, rows replayed into the real "
                        "parsers; real formatter output parsed again by TLC) + generated trees to depth 3 (quick) / 4 in 3 time zones; "
@@ -1281,6 +1284,8 @@ def run(chk: Check):
         "floats are NaN-free; ints are within S32 (LLSD integer range)",
         "map keys and URIs contain no control characters (the newline clause speaks of string values)",
         "XML form only for XML-legal text without CR (XML line-end normalisation)",
+        "message profiles: a Variable block may have zero instances; a suffix of the template's blocks may be omitted altogether "
+        "(trailing blocks are routinely omitted; an addon-built message may lack them); 'other' = a message of the next template",
         "messages: built from the template with plain Python values; every third one is additionally passed through the library's own UDP encoder/decoder first (values as the proxy holds them)",
         "naive datetimes denote UTC instants (LLSD convention; what the notation/XML codecs assume); aware datetimes only through the binary forms; dates 1970..2100",
         "opaque leaves (IEEE doubles, binary dates, real texts) are decoded by Python's struct/float/fractions, never by Hippolyzer",
